@@ -1382,6 +1382,13 @@ class Engine:
                 return VInt((-a.t - 1) if lo < 0 else (hi - a.t), a.ty)
             if rv[1] == "Neg":
                 return VInt(wrap(-a.t, a.ty), a.ty)
+            if rv[1] == "PtrMetadata":
+                # the length half of a slice reference
+                d = a
+                while isinstance(d, VRef):
+                    d = self.read_ref(d)
+                if isinstance(d, VSeq):
+                    return VInt(z3.IntVal(len(d.items) - d.pos), "usize")
             raise Unsupported("unop " + rv[1])
         if k == "cast":
             a = self.eval_operand(fr, rv[1])
